@@ -21,7 +21,14 @@ RULE = ("paths = every solution of Basic/Specialized tracers in Antarctic, Green
         "random polarisation and attenuation_interpolation in {None,0.05,0.1,0.5}. (N=11 is skipped with interpolation: the log-span is "
         "then an exact multiple of the step and int() sits on a rounding boundary). A case is non-trivial when the "
         "path exists and the signal is not zero; distinct = distinct (tracer, ice, end points, solution, op, "
-        "arguments)")
+        "arguments). Every path object carries a short HISTORY (generic call, same length with another dt, degenerate "
+        "polarisation, all-zero signal), the model's attenuation table always coming from a never-used path. "
+        "Degenerate inputs: polarisation exactly +-z, x, y, 0, cross(emitted,z), u_s0, 2u_s0, u_p0, u_p1, emitted "
+        "direction (amplitudes exactly 0.0); signals all-zero / impulse / zero head / constant; N=2,3. The search "
+        "replays 15-step shuffled histories (propagate with varying dt, N, interpolation; attenuation with equal-length "
+        "arrays and scalars; attribute reads; a sibling solution of the same tracer) on ONE object and compares every "
+        "step with a never-used path and with a numpy recomputation, checks that inputs are not mutated and outputs "
+        "do not alias")
 LEVEL_TEXT = ("theorems C03_* proved over R for every path integral, every pair of indices, every incidence angle, "
               "every signal and polarisation vector; the same model text run on Float agrees with the path classes of "
               "all four tracers on every sampled input")
@@ -311,6 +318,38 @@ def atten_table(path, n, dt, interp, grid=None, signed=False):
     return fs, np.asarray(path.attenuation(fs), dtype=float)
 
 
+def special_pols(path):
+    """exact-zero / axis-aligned / basis-aligned polarisation vectors (amplitudes that are exactly 0.0 included)"""
+    e = np.asarray(path.emitted_direction, dtype=float)
+    us, up1 = path.propagate(polarization=[1.0, 0.0, 0.0])
+    us = np.asarray(us, dtype=float)
+    c = np.cross(us, e)
+    up0 = c / np.linalg.norm(c) if np.linalg.norm(c) > 0 else c
+    return [("z", [0.0, 0.0, 1.0]), ("-z", [0.0, 0.0, -1.0]), ("x", [1.0, 0.0, 0.0]), ("y", [0.0, 1.0, 0.0]),
+            ("zero", [0.0, 0.0, 0.0]), ("cross_e_z", [float(v) for v in np.cross(e, [0, 0, 1.0])]),
+            ("u_s0", [float(v) for v in us]), ("2u_s0", [float(2 * v) for v in us]),
+            ("u_p0", [float(v) for v in up0]), ("u_p1", [float(v) for v in up1]),
+            ("emitted", [float(v) for v in e])]
+
+
+def special_signal(kind, n, g):
+    """degenerate sample sequences"""
+    if kind == "zero":
+        return np.zeros(n)
+    if kind == "impulse":
+        v = np.zeros(n); v[0] = 1.0
+        return v
+    if kind == "tail":
+        v = np.zeros(n); v[n // 2:] = g.standard_normal(n - n // 2)
+        return v
+    if kind == "const":
+        return np.ones(n)
+    return g.standard_normal(n)
+
+
+SIGNAL_KINDS = ["dense", "zero", "impulse", "tail", "const"]
+
+
 def close_list(got, ex, tol_abs, rel=1e-9):
     if got is None or len(got) != len(ex):
         return False
@@ -401,7 +440,8 @@ def correspondence(run):
                 1e-12, dict(base, op="basis"))
         if float(path.rho) == 0.0:
             run.count("vertical_paths")
-        # ---- propagate
+        # ---- propagate: a short history on this one path object.  First a generic call, then the same length with
+        # another sampling step (and the same interpolation setting), then a degenerate polarisation / signal.
         n = rng.randint(2, run.scale(40, 64))
         dt = 10 ** rng.uniform(-10, -8)
         interp = rng.choice([None, None, 0.05, 0.1, 0.5])
@@ -409,12 +449,20 @@ def correspondence(run):
             interp = None
         if interp is not None and n == 11:
             n = 12    # fmax/fmin = N-1 = 10: log10 span is exactly a multiple of the step, int() sits on a rounding boundary
-        prop_jobs.append((base, path, n, dt, interp))
+        sp_pols = special_pols(path)
+        job = dict(base=base, case=case, idx=idx, path=path, n=n, dt=dt, interp=interp, pol=None, sig="dense")
+        prop_jobs.append(job)
+        prop_jobs.append(dict(job, dt=dt * rng.choice([0.2, 0.5, 3.0, 5.0])))
+        name, vec = sp_pols[len(prop_jobs) % len(sp_pols)]
+        prop_jobs.append(dict(job, pol=(name, vec), sig=rng.choice(["dense", "dense", "impulse"])))
+        prop_jobs.append(dict(job, pol=rng.choice([None, sp_pols[0]]), sig="zero",
+                              n=rng.choice([n, 2, 3]) if interp is None else n))
 
     # stage 1: everything above + the interpolation grids
     import scipy.fft
     grid_idx = {}
-    for k, (base, path, n, dt, interp) in enumerate(prop_jobs):
+    for k, job in enumerate(prop_jobs):
+        base, path, n, dt, interp = job["base"], job["path"], job["n"], job["dt"], job["interp"]
         if interp is not None and sub_kind(path) in ("basic", "specialized"):
             freqs = scipy.fft.fftfreq(2 * n, d=dt)
             fmin, fmax = float(np.min(freqs[freqs > 0])), float(np.max(freqs))
@@ -441,7 +489,8 @@ def correspondence(run):
                 continue
             reqs2.append("prod %d %s" % (len(vals), fw.fl(vals))); expect2.append([impl[j]]); tols2.append(1e-300)
             descs2.append(dict(desc, f=freqs[j]))
-    for k, (base, path, n, dt, interp) in enumerate(prop_jobs):
+    for k, job in enumerate(prop_jobs):
+        base, path, n, dt, interp = job["base"], job["path"], job["n"], job["dt"], job["interp"]
         grid = None
         if k in grid_idx:
             rp = replies[grid_idx[k]]
@@ -450,12 +499,21 @@ def correspondence(run):
             grid = fw.unfl(rp.split())
         t0 = rng.choice([0.0, rng.uniform(-1e-6, 1e-6)])
         times = t0 + dt * np.arange(n)
-        vals = run.np_rng.standard_normal(n) * 10 ** rng.uniform(-4, 2)
-        pol = [rng.gauss(0, 1) for _ in range(3)]
+        vals = special_signal(job["sig"], n, run.np_rng) * 10 ** rng.uniform(-4, 2)
+        if job["pol"] is None:
+            pol = [rng.gauss(0, 1) for _ in range(3)]
+            run.count("propagate_pol_generic")
+        else:
+            pol = list(job["pol"][1])
+            run.count("propagate_pol_" + job["pol"][0])
+        run.count("propagate_signal_" + job["sig"])
+        # the model's attenuation table comes from a path object that has no history
+        fp, _ = make_paths(job["case"])
+        fresh = fp[job["idx"]] if job["idx"] < len(fp) else path
         sig = ps.Signal(times.copy(), vals.copy(), value_type=ps.Signal.Type.field)
         kw = {} if interp is None else {"attenuation_interpolation": interp}
         (ss, sp), (us, up1) = path.propagate(sig, pol, **kw)
-        fs, av = atten_table(path, n, float(times[1] - times[0]), interp, grid)
+        fs, av = atten_table(fresh, n, float(times[1] - times[0]), interp, grid)
         fr = path.fresnel
         e = [float(v) for v in path.emitted_direction]
         r = [float(v) for v in path.received_direction]
@@ -470,16 +528,18 @@ def correspondence(run):
         gain = max(1.0, abs(complex(fr[0])), abs(complex(fr[1])))
         vmax = float(np.max(np.abs(vals))) * math.sqrt(sum(p * p for p in pol)) * gain
         reqs2.append(req); expect2.append(ex); tols2.append(("prop", n, 1e-9 * vmax))
-        descs2.append(dict(base, op="propagate", N=n, dt=dt, interp=interp, pol=pol))
+        descs2.append(dict(base, op="propagate", N=n, dt=dt, interp=interp, pol=pol, sig=job["sig"], step=k))
         run.count("propagate_interp_%s" % interp)
         if k % 3 == 0:
             out = path.propagate(ps.Signal(times.copy(), vals.copy()), **kw)
-            fs, av = atten_table(path, n, float(times[1] - times[0]), interp, grid, signed=True)
+            fp, _ = make_paths(job["case"])
+            fresh2 = fp[job["idx"]] if job["idx"] < len(fp) else path
+            fs, av = atten_table(fresh2, n, float(times[1] - times[0]), interp, grid, signed=True)
             reqs2.append("propscalar %d %s %s %s %d %s %s" % (n, fw.fl(times), fw.fl(vals), fw.fl([float(path.tof)]),
                                                             len(fs), fw.fl(fs), fw.fl(av)))
             expect2.append([float(v) for v in out.times] + [float(v) for v in out.values])
             tols2.append(("prop", n, 1e-9 * float(np.max(np.abs(vals)))))
-            descs2.append(dict(base, op="propagate-scalar", N=n, dt=dt, interp=interp))
+            descs2.append(dict(base, op="propagate-scalar", N=n, dt=dt, interp=interp, sig=job["sig"], step=k))
     bad = ["basis 0 0", "propagate 2 0 0", "nosuch 1 2", "uniform 0 1 0 0"]
     replies2 = fw.run_driver("C03", reqs2 + bad)
     for b, rp in zip(bad, replies2[len(reqs2):]):
@@ -650,90 +710,247 @@ def check_path(run, case, idx, path, deep=False):
     elif kind == "layered":
         k2 = any(abs(c) > 1 + 1e-12 for t, pr in layered_junctions(path) for c in pr if t == "T")
 
-    # ---- propagate: grid, basis, energy, linearity, independent recomputation
+    # ---- propagate: grid, basis, energy, linearity, independent recomputation; degenerate inputs; histories
     if which in ("all", "propagate"):
         g = np.random.default_rng(case.get("vseed", 12345) + idx)
         n = case.get("N", int(g.integers(2, 65)))
         dt = case.get("dt", float(10 ** g.uniform(-10, -8)))
         interp = case.get("interp", [None, 0.05, 0.1, 0.5][int(g.integers(0, 4))])
         extra = {"N": n, "dt": dt, "interp": interp, "vseed": case.get("vseed", 12345)}
-        times = case.get("t0", 0.0) + dt * np.arange(n)
+        t0 = case.get("t0", 0.0)
         x = g.standard_normal(n)
         y = g.standard_normal(n)
         pol = g.standard_normal(3)
         pol2 = g.standard_normal(3)
-        kw = {} if interp is None else {"attenuation_interpolation": interp}
+        ctx = dict(kind=kind, fr=fr, k2=k2, fail=fail)
 
-        def prop(v, p):
-            s = ps.Signal(times.copy(), np.array(v, dtype=float))
-            (a, b), (u1, u2) = path.propagate(s, p, **kw)
-            if not np.array_equal(s.times, times) or not np.array_equal(s.values, v):
-                fail("input-mutated", None, None, "propagate changed its input signal", extra=extra)
-            return a, b, np.asarray(u1, dtype=float), np.asarray(u2, dtype=float)
-        ss, sp, us, up1 = prop(x, pol)
-        tof = float(path.tof)
-        if len(ss.times) != n or len(sp.times) != n or not np.array_equal(ss.times, times + tof) \
-                or not np.array_equal(sp.times, times + tof):
-            d = float(np.max(np.abs(np.asarray(ss.times)[:n] - (times + tof)))) if len(ss.times) == n else None
-            fail("grid", d, 0.0, "output times are not the input times delayed by the time of flight", extra=extra)
-        rd = np.asarray(path.received_direction, dtype=float)
-        gram = [float(us @ us), float(up1 @ up1), float(us @ up1), float(us @ rd), float(up1 @ rd)]
-        if not np.allclose(gram, [1, 1, 0, 0, 0], atol=1e-9):
-            fail("basis", gram, [1, 1, 0, 0, 0],
-                 "polarisation vectors are not unit / orthogonal / perpendicular to the received direction",
+        ss, sp, us, up1 = verify_propagation(path, ctx, t0, dt, x, pol, interp, dict(extra, step="generic"))
+        if ss is not None:
+            times = t0 + dt * np.arange(n)
+            kw = {} if interp is None else {"attenuation_interpolation": interp}
+
+            def prop(v, p):
+                (a, b), _ = path.propagate(ps.Signal(times.copy(), np.array(v, dtype=float)), p, **kw)
+                return a, b
+            # linear in the signal and in the polarisation
+            a, b = 1.7, -0.6
+            s2, p2 = prop(y, pol)
+            s3, p3 = prop(a * x + b * y, pol)
+            scale = (float(np.max(np.abs(x))) + float(np.max(np.abs(y)))) * float(np.linalg.norm(pol)) \
+                * max(1.0, abs(fr[0]), abs(fr[1]))
+            d = max(float(np.max(np.abs(s3.values - (a * ss.values + b * s2.values)))),
+                    float(np.max(np.abs(p3.values - (a * sp.values + b * p2.values)))))
+            if d > 1e-9 * scale:
+                fail("linear-signal", d, 0.0, "propagate is not linear in the signal", extra=extra)
+            s4, p4 = prop(x, pol2)
+            s5, p5 = prop(x, a * pol + b * pol2)
+            scale = float(np.max(np.abs(x))) * (float(np.linalg.norm(pol)) + float(np.linalg.norm(pol2))) \
+                * max(1.0, abs(fr[0]), abs(fr[1]))
+            d = max(float(np.max(np.abs(s5.values - (a * ss.values + b * s4.values)))),
+                    float(np.max(np.abs(p5.values - (a * sp.values + b * p4.values)))))
+            if d > 1e-9 * scale:
+                fail("linear-polarization", d, 0.0, "propagate is not linear in the polarisation vector", extra=extra)
+
+        # degenerate inputs: exact-zero / axis-aligned / basis-aligned polarisations, degenerate signals
+        for name, vec in special_pols(path):
+            sk = SIGNAL_KINDS[int(g.integers(0, len(SIGNAL_KINDS)))] if name not in ("z", "u_s0") else "dense"
+            v = special_signal(sk, n, g)
+            verify_propagation(path, ctx, t0, dt, v, np.array(vec), interp,
+                               dict(extra, step="pol=%s signal=%s" % (name, sk)))
+        for sk in ("zero", "impulse"):
+            verify_propagation(path, ctx, t0, dt, special_signal(sk, n, g), pol, None,
+                               dict(extra, step="pol=generic signal=%s" % sk, interp=None))
+        verify_propagation(path, ctx, t0, dt, np.zeros(n), np.array([0.0, 0.0, 1.0]), interp,
+                           dict(extra, step="pol=z signal=zero"))
+
+    # ---- histories on one path object, compared step by step with never-used objects and the recomputation
+    if which in ("all", "propagate", "history"):
+        check_history(run, case, idx, kind, fr, k2, fail)
+
+
+def recompute_reference(path, kind, fr, times, x, pol):
+    """numpy-only reference for the un-interpolated propagate: shift, split, attenuation*Fresnel, Hermitian filter"""
+    n = len(times)
+    freqs = np.fft.fftfreq(2 * n, d=float(times[1] - times[0]))
+    fa = np.abs(freqs)
+    if kind in ("basic", "specialized"):
+        fa = np.minimum(fa, np.max(freqs))      # np.interp holds the last tabulated value at Nyquist
+    av = np.asarray(path.attenuation(fa), dtype=float)
+    ed = np.asarray(path.emitted_direction, dtype=float)
+    c = np.cross(ed, [0, 0, 1.0])
+    u0 = c / np.linalg.norm(c) if np.linalg.norm(c) > 0 else np.array(
+        [math.sin(float(path.phi)), -math.cos(float(path.phi)), 0.0])
+    q0 = np.cross(u0, ed)
+    q0 = q0 / np.linalg.norm(q0)
+    out = []
+    for u, r in ((u0, fr[0]), (q0, fr[1])):
+        X = np.fft.fft(np.concatenate((x * float(np.dot(pol, u)), np.zeros(n))))
+        H = av * np.where(freqs < 0, np.conj(r), r)
+        out.append(np.real(np.fft.ifft(H * X))[:n])
+    return out
+
+
+def verify_propagation(path, ctx, t0, dt, x, pol, interp, extra, fresh=None, ref_path=None):
+    """one propagate call on `path` checked against the property (grid, basis, energy, no input mutation, no
+    aliasing), against the numpy recomputation (un-interpolated) and, when given, against a never-used path"""
+    rt, im, ps, li = mods()
+    kind, fr, k2, fail = ctx["kind"], ctx["fr"], ctx["k2"], ctx["fail"]
+    n = len(x)
+    times = t0 + dt * np.arange(n)
+    x = np.array(x, dtype=float)
+    pol = np.array(pol, dtype=float)
+    pol_in = pol.copy()
+    kw = {} if interp is None else {"attenuation_interpolation": interp}
+    s = ps.Signal(times.copy(), x.copy())
+    try:
+        (ss, sp), (us, up1) = path.propagate(s, pol_in, **kw)
+    except Exception as e:
+        fail("crash", repr(e)[:200], "two signals and two vectors", "propagate raised on a valid input", extra=extra)
+        return None, None, None, None
+    us, up1 = np.asarray(us, dtype=float), np.asarray(up1, dtype=float)
+    if not np.array_equal(s.times, times) or not np.array_equal(s.values, x) or not np.array_equal(pol_in, pol):
+        fail("input-mutated", None, None, "propagate changed its input signal or polarisation", extra=extra)
+    for o in (ss, sp):
+        if np.shares_memory(o.times, s.times) or np.shares_memory(o.values, s.values):
+            fail("aliasing", None, None, "an output signal shares memory with the input signal", extra=extra)
+    if np.shares_memory(ss.times, sp.times) or np.shares_memory(ss.values, sp.values):
+        fail("aliasing", None, None, "the two output signals share memory", extra=extra)
+    tof = float(path.tof)
+    for comp, o in (("s", ss), ("p", sp)):
+        if len(o.times) != n or len(o.values) != n or not np.array_equal(o.times, times + tof):
+            d = float(np.max(np.abs(np.asarray(o.times)[:n] - (times + tof)))) if len(o.times) == n else None
+            fail("grid", [comp, d], 0.0,
+                 "%s output times are not the input times delayed by the time of flight" % comp, extra=extra)
+            return None, None, None, None
+    rd = np.asarray(path.received_direction, dtype=float)
+    gram = [float(us @ us), float(up1 @ up1), float(us @ up1), float(us @ rd), float(up1 @ rd)]
+    if not np.allclose(gram, [1, 1, 0, 0, 0], atol=1e-9):
+        fail("basis", gram, [1, 1, 0, 0, 0],
+             "polarisation vectors are not unit / orthogonal / perpendicular to the received direction", extra=extra)
+    e_in = float(np.sum(x * x)) * float(pol @ pol)
+    e_out = float(np.sum(ss.values ** 2) + np.sum(sp.values ** 2))
+    if not np.all(np.isfinite(ss.values)) or not np.all(np.isfinite(sp.values)):
+        fail("energy", "non-finite", e_in, "propagated signal is not finite", extra=extra)
+        return None, None, None, None
+    if e_out > e_in * (1 + 1e-9):
+        gmax = max(abs(fr[0]), abs(fr[1])) ** 2
+        if kind == "layered" and k2 and e_out <= e_in * gmax * (1 + 1e-9):
+            fail("energy", e_out, e_in, "K2: energy gain from a layered transmission coefficient > 1", key="K2",
                  extra=extra)
-        e_in = float(np.sum(x * x)) * float(pol @ pol)
-        e_out = float(np.sum(ss.values ** 2) + np.sum(sp.values ** 2))
-        if not np.all(np.isfinite(ss.values)) or not np.all(np.isfinite(sp.values)):
-            fail("energy", "non-finite", e_in, "propagated signal is not finite", extra=extra)
-        elif e_out > e_in * (1 + 1e-9):
-            gmax = max(abs(fr[0]), abs(fr[1])) ** 2
-            if kind == "layered" and k2 and e_out <= e_in * gmax * (1 + 1e-9):
-                fail("energy", e_out, e_in, "K2: energy gain from a layered transmission coefficient > 1", key="K2",
+        else:
+            fail("energy", e_out, e_in, "output carries more energy than the input", extra=extra)
+    amp = float(np.max(np.abs(x))) * float(np.linalg.norm(pol)) * max(1.0, abs(fr[0]), abs(fr[1]))
+    if interp is None and n >= 2:
+        exp = recompute_reference(ref_path if ref_path is not None else path, kind, fr, times, x, pol)
+        for comp, ex, got in (("s", exp[0], ss), ("p", exp[1], sp)):
+            if float(np.max(np.abs(ex - got.values))) > 1e-7 * amp + 1e-300:
+                j = int(np.argmax(np.abs(ex - got.values)))
+                fail("recompute-" + comp, [j, float(got.values[j])], [j, float(ex[j])],
+                     "propagated %s-signal differs from shift + split + attenuation*Fresnel filter" % comp,
                      extra=extra)
-            else:
-                fail("energy", e_out, e_in, "output carries more energy than the input", extra=extra)
-        # linear in the signal and in the polarisation
-        a, b = 1.7, -0.6
-        s2, p2, _, _ = prop(y, pol)
-        s3, p3, _, _ = prop(a * x + b * y, pol)
-        scale = (float(np.max(np.abs(x))) + float(np.max(np.abs(y)))) * float(np.linalg.norm(pol)) \
-            * max(1.0, abs(fr[0]), abs(fr[1]))
-        d = max(float(np.max(np.abs(s3.values - (a * ss.values + b * s2.values)))),
-                float(np.max(np.abs(p3.values - (a * sp.values + b * p2.values)))))
-        if d > 1e-9 * scale:
-            fail("linear-signal", d, 0.0, "propagate is not linear in the signal", extra=extra)
-        s4, p4, _, _ = prop(x, pol2)
-        s5, p5, _, _ = prop(x, a * pol + b * pol2)
-        scale = float(np.max(np.abs(x))) * (float(np.linalg.norm(pol)) + float(np.linalg.norm(pol2))) \
-            * max(1.0, abs(fr[0]), abs(fr[1]))
-        d = max(float(np.max(np.abs(s5.values - (a * ss.values + b * s4.values)))),
-                float(np.max(np.abs(p5.values - (a * sp.values + b * p4.values)))))
-        if d > 1e-9 * scale:
-            fail("linear-polarization", d, 0.0, "propagate is not linear in the polarisation vector", extra=extra)
-        # independent recomputation (numpy only) for the un-interpolated case
-        if interp is None and n >= 2:
-            freqs = np.fft.fftfreq(2 * n, d=float(times[1] - times[0]))
-            fa = np.abs(freqs)
-            if kind in ("basic", "specialized"):
-                fa = np.minimum(fa, np.max(freqs))      # np.interp holds the last tabulated value at Nyquist
-            av = np.asarray(path.attenuation(fa), dtype=float)
-            ed = np.asarray(path.emitted_direction, dtype=float)
-            c = np.cross(ed, [0, 0, 1.0])
-            u0 = c / np.linalg.norm(c) if np.linalg.norm(c) > 0 else np.array(
-                [math.sin(float(path.phi)), -math.cos(float(path.phi)), 0.0])
-            q0 = np.cross(u0, ed)
-            q0 = q0 / np.linalg.norm(q0)
-            for comp, u, r, got in (("s", u0, fr[0], ss), ("p", q0, fr[1], sp)):
-                X = np.fft.fft(np.concatenate((x * float(pol @ u), np.zeros(n))))
-                H = av * np.where(freqs < 0, np.conj(r), r)
-                exp = np.real(np.fft.ifft(H * X))[:n]
-                tol = 1e-7 * float(np.max(np.abs(x))) * float(np.linalg.norm(pol)) * max(1.0, abs(r)) + 1e-300
-                if float(np.max(np.abs(exp - got.values))) > tol:
-                    j = int(np.argmax(np.abs(exp - got.values)))
-                    fail("recompute-" + comp, [j, float(got.values[j])], [j, float(exp[j])],
-                         "propagated %s-signal differs from shift + split + attenuation*Fresnel filter" % comp,
-                         extra=extra)
+    if fresh is not None:
+        (fs_, fp_), (fu, fu1) = fresh.propagate(ps.Signal(times.copy(), x.copy()), pol.copy(), **kw)
+        same = (np.array_equal(fs_.times, ss.times) and np.array_equal(fp_.times, sp.times)
+                and np.allclose(fs_.values, ss.values, rtol=0, atol=1e-12 * amp)
+                and np.allclose(fp_.values, sp.values, rtol=0, atol=1e-12 * amp)
+                and np.allclose(fu, us, rtol=0, atol=1e-14) and np.allclose(fu1, up1, rtol=0, atol=1e-14))
+        if not same:
+            d = max(float(np.max(np.abs(fs_.values - ss.values))), float(np.max(np.abs(fp_.values - sp.values))))
+            fail("history", d, 0.0,
+                 "propagate on a used path object differs from the same call on a never-used path", extra=extra)
+    return ss, sp, us, up1
+
+
+def check_history(run, case, idx, kind, fr, k2, fail):
+    """several propagate / attenuation calls with varying dt, length, interpolation setting and frequency arrays on
+    ONE path object (and a sibling solution of the same tracer), interleaved with attribute reads"""
+    rt, im, ps, li = mods()
+    g = np.random.default_rng(case.get("vseed", 12345) * 7 + idx + 1)
+    used, _ = make_paths(case)
+    if idx >= len(used):
+        return
+    path = used[idx]
+    sib = (idx + 1) % len(used)
+    ctx = dict(kind=kind, fr=fr, k2=k2, fail=fail)
+
+    def fresh_path(i=idx):
+        fp, _ = make_paths(case)
+        return fp[i] if i < len(fp) else None
+    n1 = int(g.integers(4, 48))
+    n2 = int(g.integers(4, 48))
+    dt1 = float(10 ** g.uniform(-10, -8.5))
+    dt2 = dt1 * float(g.choice([0.2, 0.5, 2.0, 5.0]))
+    ip = [None, 0.05, 0.1, 0.5][int(g.integers(0, 4))]
+    ip2 = [None, 0.1, 0.5][int(g.integers(0, 3))]
+    pol = g.standard_normal(3)
+    f1 = np.sort(10 ** g.uniform(6, 9.5, size=6)) * g.choice([1, -1], size=6)
+    f2 = np.sort(10 ** g.uniform(6, 9.5, size=6))
+    steps = [("prop", n1, dt1, ip, "dense"), ("read",), ("prop", n1, dt2, ip, "dense"), ("atten", f1), ("atten", f2),
+             ("prop", n1, dt1, None, "dense"), ("prop", n1, dt2, None, "impulse"), ("sibling", n1, dt2, ip),
+             ("scalar", n1, dt1, ip), ("scalar", n1, dt2, ip), ("prop", n2, dt1, ip2, "dense"),
+             ("atten-scalar", float(f2[2])), ("basis",), ("prop", n1, dt1, ip, "dense"), ("prop", n2, dt2, ip2, "zero")]
+    order = list(range(len(steps)))
+    # keep the first three in place (same length, other dt right after the first call), shuffle the rest
+    rest = order[3:]
+    g.shuffle(rest)
+    order = order[:3] + [int(i) for i in rest]
+    for k, si in enumerate(order):
+        st = steps[si]
+        extra = {"history_step": k, "op": list(map(str, st)), "vseed": case.get("vseed", 12345)}
+        if st[0] == "prop":
+            _, n, dt, interp, sk = st
+            verify_propagation(path, ctx, 0.0, dt, special_signal(sk, n, g), pol, interp, extra,
+                               fresh=fresh_path(), ref_path=fresh_path())
+        elif st[0] == "sibling" and sib != idx:
+            _, n, dt, interp = st
+            sfr = [complex(c) for c in used[sib].fresnel]
+            sk2 = kind == "layered" and any(abs(c) > 1 + 1e-12 for t, pr in layered_junctions(used[sib])
+                                            for c in pr if t == "T")
+            verify_propagation(used[sib], dict(ctx, fr=sfr, k2=sk2), 0.0, dt, g.standard_normal(n), pol, interp,
+                               dict(extra, sol=sib), fresh=fresh_path(sib), ref_path=fresh_path(sib))
+        elif st[0] == "scalar":
+            _, n, dt, interp = st
+            kw = {} if interp is None else {"attenuation_interpolation": interp}
+            times = dt * np.arange(n)
+            v = g.standard_normal(n)
+            o1 = path.propagate(ps.Signal(times.copy(), v.copy()), **kw)
+            o2 = fresh_path().propagate(ps.Signal(times.copy(), v.copy()), **kw)
+            if not np.array_equal(o1.times, times + float(path.tof)) or not np.array_equal(o1.times, o2.times) \
+                    or not np.allclose(o1.values, o2.values, rtol=0, atol=1e-12 * float(np.max(np.abs(v)))):
+                fail("history", float(np.max(np.abs(o1.values - o2.values))) if len(o1.values) == len(o2.values)
+                     else None, 0.0,
+                     "propagate(signal) on a used path object differs from the same call on a never-used path",
+                     extra=extra)
+        elif st[0] in ("atten", "atten-scalar"):
+            f = st[1]
+            fin = np.array(f, copy=True)
+            a1 = np.asarray(path.attenuation(fin), dtype=float)
+            a2 = np.asarray(fresh_path().attenuation(np.array(f, copy=True)), dtype=float)
+            if not np.array_equal(fin, np.asarray(f)):
+                fail("input-mutated", None, None, "attenuation changed its frequency argument", extra=extra)
+            if a1.shape != a2.shape or not np.allclose(a1, a2, rtol=1e-12, atol=0):
+                fail("history", [float(v) for v in np.atleast_1d(a1)], [float(v) for v in np.atleast_1d(a2)],
+                     "attenuation(f) on a used path object differs from a never-used path", extra=extra)
+            if st[0] == "atten":
+                one = np.array([float(np.asarray(path.attenuation(np.array([q])))[0]) for q in f])
+                if not np.allclose(one, a1, rtol=1e-12, atol=0):
+                    fail("history", [float(v) for v in a1], [float(v) for v in one],
+                         "attenuation of an array differs from attenuation of its elements", extra=extra)
+        elif st[0] == "read":
+            fp = fresh_path()
+            same = (float(path.tof) == float(fp.tof) and float(path.path_length) == float(fp.path_length)
+                    and np.array_equal(path.emitted_direction, fp.emitted_direction)
+                    and np.array_equal(path.received_direction, fp.received_direction)
+                    and [complex(c) for c in path.fresnel] == [complex(c) for c in fp.fresnel])
+            if not same:
+                fail("history", None, None, "attributes of a used path object differ from a never-used path",
+                     extra=extra)
+        elif st[0] == "basis":
+            b1 = path.propagate(polarization=pol)
+            b2 = fresh_path().propagate(polarization=pol)
+            if not all(np.array_equal(u, v) for u, v in zip(b1, b2)):
+                fail("history", None, None, "polarisation vectors of a used path object differ from a never-used path",
+                     extra=extra)
 
 
 def search(run, deep):
